@@ -117,6 +117,48 @@ theorem call_type_check (p : Prepared) (c : Call) (posT : List Ty) (kwT : List (
 example : call ⟨["x"], [], ["y"], .mk ["x"] [] [] ["y"] [], [.tensor 1 (some [.known 2])], [], []⟩
     ⟨1, []⟩ [.tensor 7 (some [.known 2])] [] = .error .typeError := by rfl
 
+/-! #### declared constants, 0 included -/
+
+/-- **`strip_keeps_constants`**: forgetting symbolic dimensions (`inline()` on the private copy) keeps the rank and
+    every declared constant literally - a declared 0 stays 0, it is not read as "unknown". -/
+theorem strip_keeps_constants (e : Nat) (ds : List Dim) :
+    ∃ ds', (Ty.tensor e (some ds)).strip = .tensor e (some ds') ∧ ds'.length = ds.length ∧
+      ∀ (i n : Nat), ds[i]? = some (Dim.known n) → ds'[i]? = some (Dim.known n) := by
+  refine ⟨ds.map Dim.strip, by simp [Ty.strip], by simp, fun i n h => ?_⟩
+  rw [List.getElem?_map, h]
+  rfl
+
+/-- **`sub_const_mismatch`**: an argument type of the same rank whose i-th dimension is the constant `a` is not
+    a subtype of a declared type whose i-th dimension is another constant `b` - for all constants, 0 included
+    (shape (2,3) against a declared [0,3]; shape (0,3) against a declared [2,3]). -/
+theorem sub_const_mismatch (e e' : Nat) (as bs : List Dim) (i a b : Nat)
+    (ha : as[i]? = some (.known a)) (hb : bs[i]? = some (.known b)) (hne : a ≠ b) :
+    (Ty.tensor e (some as)).sub (.tensor e' (some bs)) = false := by
+  have hne' : as ≠ bs := by
+    intro h; subst h; rw [ha] at hb; cases hb; exact hne rfl
+  have hz : (as.zip bs)[i]? = some (Dim.known a, Dim.known b) := by
+    simp [List.getElem?_zip_eq_some, ha, hb]
+  have hall : ((as.zip bs).all fun p => p.1.le p.2) = false := by
+    rw [List.all_eq_false]
+    exact ⟨(Dim.known a, Dim.known b), List.mem_of_getElem? hz, by simp [Dim.le, hne]⟩
+  simp [Ty.sub, shapeLe, hne', hall]
+
+/-- **`wrong_constant_dim_typeerror`**: a call whose i-th argument has, at some position, another constant
+    dimension than the (stripped) declared input type raises TypeError - the error clause of the statement for
+    "same rank, different constant", 0 included. -/
+theorem wrong_constant_dim_typeerror (p : Prepared) (c : Call) (posT : List Ty) (kwT : List (String × Ty))
+    (slots : List Slot) (hbind : bind p.inNames p.defaults c = .ok slots)
+    (i : Nat) (s : Slot) (e e' : Nat) (as bs : List Dim) (j a b : Nat)
+    (hd : p.inTypes[i]? = some (.tensor e' (some bs))) (hs : slots[i]? = some s)
+    (ht : slotType posT kwT s = some (.tensor e (some as)))
+    (ha : as[j]? = some (.known a)) (hb : bs[j]? = some (.known b)) (hne : a ≠ b) :
+    call p c posT kwT = .error .typeError :=
+  call_type_check p c posT kwT slots hbind i _ _ s hd hs ht (sub_const_mismatch e e' as bs j a b ha hb hne)
+
+example : (Ty.tensor 1 (some [.known 2, .known 3])).sub (.tensor 1 (some [.known 0, .known 3])) = false ∧
+    (Ty.tensor 1 (some [.known 0, .known 3])).sub (.tensor 1 (some [.known 0, .unk])) = true ∧
+    (Ty.tensor 1 (some [.known 0, .sym "N"])).strip = .tensor 1 (some [.known 0, .unk]) := by decide
+
 /-! ### renaming -/
 
 /-- On any name space, whatever the internal names look like and whatever is already reserved or
